@@ -379,4 +379,68 @@ theorem exFix_fixed : (sweep (peqState (n := 2) (1/2 : Rat)) clip1 exFix).1 = ex
 theorem exFix'_fixed : (sweep clip1 (peqState (n := 2) (1/2 : Rat)) exFix').1 = exFix' :=
   St.ext' (by decide +kernel) (by decide +kernel) (by decide +kernel)
 
+
+/-! ### stacked (flat) vectors vs shaped objects -/
+section flat
+variable {m n : Nat}
+theorem unflatten_get (v : Vec K (m * n)) (i : Fin m) (j : Fin n) :
+    (unflatten v).get i j = v.get ⟨i.val * n + j.val, idx_lt i j⟩ := by simp [unflatten]
+
+theorem flatten_get (A : Mat K m n) (i : Fin m) (j : Fin n) :
+    (flatten A).get ⟨i.val * n + j.val, idx_lt i j⟩ = A.get i j := by
+  have hn : 0 < n := j.pos
+  simp only [flatten, Vec.get_ofFn]
+  congr 1
+  · apply Fin.ext; simp [Nat.add_comm, Nat.add_mul_div_right _ _ hn, Nat.div_eq_of_lt j.isLt]
+  · apply Fin.ext; simp [Nat.add_mod, Nat.mod_eq_of_lt j.isLt]
+
+theorem unflatten_flatten (A : Mat K m n) : unflatten (flatten A) = A := by
+  apply Mat.ext'; intro i j; rw [unflatten_get, flatten_get]
+
+theorem sum_flat (f : Fin (m * n) → K) : ∑ k, f k = ∑ i : Fin m, ∑ j : Fin n, f ⟨i.val * n + j.val, idx_lt i j⟩ := by
+  rw [← Fintype.sum_prod_type', ← Equiv.sum_comp finProdFinEquiv f]
+  apply Finset.sum_congr rfl; intro p _
+  congr 1; apply Fin.ext; simp [finProdFinEquiv, Nat.mul_comm, Nat.add_comm]
+
+theorem ip1_flat (u w : Vec K (m * n)) : ip1 u w = ip2 (unflatten u) (unflatten w) := by
+  unfold ip1 ip2; rw [sum_flat]; simp [unflatten_get]
+
+theorem unflatten_sub (u w : Vec K (m * n)) : unflatten (u.sub w) = (unflatten u).sub (unflatten w) := by
+  apply Mat.ext'; intro i j; simp [unflatten_get, Mat.sub]
+
+theorem ip2_rows (X Y : Mat K m n) : ip2 X Y = ∑ k : Fin m, ip1 X[k] Y[k] := by
+  simp [ip2, ip1, Mat.get, Vec.get]
+theorem tenOfVec_get (v : Vec K (m * (n * n))) (x : Fin m) (a b : Fin n) :
+    (tenOfVec v).get x a b = ((unflatten ((unflatten v)[x]))).get a b := by
+  simp [tenOfVec, Ten.get]
+
+theorem tenOfVec_vecOfTen (T : Ten K m n n) : tenOfVec (vecOfTen T) = T := by
+  apply Ten.ext'; intro x a b
+  rw [tenOfVec_get]
+  unfold vecOfTen
+  rw [unflatten_flatten]
+  simp only [Vector.getElem_ofFn, Fin.getElem_fin]
+  rw [unflatten_flatten]
+  rfl
+
+theorem ip1_ten (u w : Vec K (m * (n * n))) : ip1 u w = ip3 (tenOfVec u) (tenOfVec w) := by
+  rw [ip1_flat, ip2_rows]
+  unfold ip3
+  apply Finset.sum_congr rfl; intro x _
+  rw [ip1_flat]
+  unfold ip2
+  apply Finset.sum_congr rfl; intro a _
+  apply Finset.sum_congr rfl; intro b _
+  rw [tenOfVec_get, tenOfVec_get]
+
+theorem tenOfVec_get' (v : Vec K (m * (n * n))) (x : Fin m) (a b : Fin n) :
+    (tenOfVec v).get x a b = v.get ⟨x.val * (n * n) + (a.val * n + b.val), idx_lt x ⟨a.val * n + b.val, idx_lt a b⟩⟩ := by
+  rw [tenOfVec_get, unflatten_get]
+  exact unflatten_get v x ⟨a.val * n + b.val, idx_lt a b⟩
+
+theorem tenOfVec_sub (u w : Vec K (m * (n * n))) : tenOfVec (u.sub w) = Ten.sub (tenOfVec u) (tenOfVec w) := by
+  apply Ten.ext'; intro x a b
+  simp only [Ten.sub, Ten.get_ofFn, tenOfVec_get', sub_get]
+end flat
+
 end QM.C05
